@@ -3,8 +3,8 @@
    inside a Section are stated here in their closed form (the Section variables and
    hypotheses are the leading quantifiers / premises). *)
 From ReqV Require Import Lib.Bytes Model.H1Resp Model.H1Render Model.RespRender Model.StreamBody
-  Model.RespAPI Model.H1Client Model.MuxResp
-  Proofs.RespRenderProofs Proofs.H1RoundTrip Proofs.RespAPIProofs Proofs.MuxRespProofs Proofs.C02CrossProto.
+  Model.RespAPI Model.H1Client Model.MuxResp Model.H1Fast
+  Proofs.RespRenderProofs Proofs.H1RoundTrip Proofs.RespAPIProofs Proofs.MuxRespProofs Proofs.C02CrossProto Proofs.H1FastProofs.
 
 (* ---------- HTTP/1.1: parse (render x) = x ---------- *)
 
@@ -184,53 +184,78 @@ Theorem C02_trailer_fields_collect : forall fs, token_names fs -> add_all (lower
 Proof. exact add_all_collect. Qed.
 Print Assumptions C02_trailer_fields_collect.
 
-(* cross_protocol_response: one abstract response (any status with a body, any end-to-end
-   fields, any body), sent chunked over HTTP/1.1 (any partition), as DATA frames over HTTP/2
-   (any partition, any padding) and HTTP/3 (any partition): the caller obtains the same
-   status, the same header multimap [collect (a_fields a)], the same body through the same
-   read mode, on all three *)
-Theorem C02_cross_protocol_h1 :
-  forall (a : aresp) (fs : list wfield) (cs : list (bytes * bytes)) (l0 : bytes) (last : h2frame)
-         (m : mode) (sizes : list nat),
-  (100 <= a_code a <= 999)%Z -> body_allowed_for_status (a_code a) = true ->
-  reason_ok (a_reason a) = true -> fields_ok fs -> map field_of fs = a_fields a ->
-  end_to_end (a_fields a) = true ->
+(* cross_protocol_response.  [aresp_ok a fs tfs]: a is an abstract response with a status that
+   allows a body, end-to-end header fields a_fields (written on an HTTP/1.1 wire as fs, any
+   optional whitespace), trailer fields a_trailers (written as tfs), any body.  Sent
+   chunked over HTTP/1.1 (ANY chunk partition / size-line spelling), as DATA frames + trailer
+   block over HTTP/2 (ANY partition, ANY padding) and HTTP/3 (ANY partition), the caller
+   obtains the same status, the same header multimap [collect (a_fields a)], the same trailer
+   multimap [collect (a_trailers a)] and the same body through the same read mode. *)
+Theorem C02_cross_h1 : forall a fs tfs cs l0 m sizes,
+  aresp_ok a fs tfs ->
   chunks_ok br_size 0 cs -> size_line_ok br_size l0 0 -> concat (map snd cs) = a_body a ->
-  fd_end last = true ->
-  exists (r : resp) (b : body_result),
+  trailer_fits br_size tfs ->
+  exists r b,
     h1_exchange (bs "GET") m sizes
       (render_head (a_code a) (a_reason a) (fs ++ [te_chunked]) ++ H1Render.render_chunks cs ++
-       l0 ++ H1Render.CRLF ++ render_wfields [] ++ H1Render.CRLF ++ []) =
-      Some {| d_resp := r; d_body := b;
-              d_api := run_mode m (a_code a) sizes {| rd_rem := a_body a; rd_end := BEof |} |} /\
-    r_code r = a_code a /\ r_header r = collect (a_fields a) /\ b_trailer b = [] /\
-    b_data b = a_body a.
-Proof. exact h1_view. Qed.
-Print Assumptions C02_cross_protocol_h1.
-Theorem C02_cross_protocol_h2 :
-  forall (a : aresp) (fs : list wfield) (fr : list h2frame) (last : h2frame) (m : mode) (sizes : list nat),
-  (100 <= a_code a <= 999)%Z -> body_allowed_for_status (a_code a) = true ->
-  fields_ok fs -> map field_of fs = a_fields a -> end_to_end (a_fields a) = true ->
-  open_frames fr -> fd_end last = true -> payload (fr ++ [last]) = a_body a ->
+       l0 ++ H1Render.CRLF ++ render_wfields tfs ++ H1Render.CRLF ++ []) =
+      Some {| d_resp := r; d_body := b; d_api := expected_api a m sizes |} /\
+    r_code r = a_code a /\ r_header r = collect (a_fields a) /\
+    b_trailer b = collect (a_trailers a) /\ b_data b = a_body a.
+Proof. exact cross_h1. Qed.
+Print Assumptions C02_cross_h1.
+
+Theorem C02_cross_h2 : forall a fs tfs fr m sizes,
+  aresp_ok a fs tfs -> open_frames fr -> payload fr = a_body a ->
   h2_exchange false
     [{| hh_status := code_text (a_code a); hh_fields := lower_fields (a_fields a); hh_end := false |}]
-    (fr ++ [last]) None m sizes =
-  Some {| m_code := a_code a; m_header := collect (a_fields a); m_cl := -1; m_trailer := [];
-          m_api := run_mode m (a_code a) sizes {| rd_rem := a_body a; rd_end := BEof |} |}.
-Proof. exact h2_view. Qed.
-Print Assumptions C02_cross_protocol_h2.
-Theorem C02_cross_protocol_h3 :
-  forall (a : aresp) (fs : list wfield) (last : h2frame) (parts : list bytes) (m : mode) (sizes : list nat),
-  (100 <= a_code a <= 999)%Z -> body_allowed_for_status (a_code a) = true ->
-  reason_ok (a_reason a) = true -> fields_ok fs -> map field_of fs = a_fields a ->
-  end_to_end (a_fields a) = true -> fd_end last = true -> concat parts = a_body a ->
+    fr (Some (lower_fields (a_trailers a))) m sizes =
+  Some {| m_code := a_code a; m_header := collect (a_fields a); m_cl := -1;
+          m_trailer := collect (a_trailers a); m_api := expected_api a m sizes |}.
+Proof. exact cross_h2. Qed.
+Print Assumptions C02_cross_h2.
+
+Theorem C02_cross_h3 : forall a fs tfs parts m sizes,
+  aresp_ok a fs tfs -> concat parts = a_body a ->
   h3_exchange false
     [{| h3_status := code_text (a_code a); h3_flds := lower_fields (a_fields a) |}]
-    parts None m sizes =
-  Some {| m_code := a_code a; m_header := collect (a_fields a); m_cl := -1; m_trailer := [];
-          m_api := run_mode m (a_code a) sizes {| rd_rem := a_body a; rd_end := BEof |} |}.
-Proof. exact h3_view. Qed.
-Print Assumptions C02_cross_protocol_h3.
+    parts (Some (lower_fields (a_trailers a))) m sizes =
+  Some {| m_code := a_code a; m_header := collect (a_fields a); m_cl := -1;
+          m_trailer := collect (a_trailers a); m_api := expected_api a m sizes |}.
+Proof. exact cross_h3. Qed.
+Print Assumptions C02_cross_h3.
+
+Theorem C02_cross_protocol_response : forall a fs tfs cs l0 fr parts m sizes,
+  aresp_ok a fs tfs ->
+  chunks_ok br_size 0 cs -> size_line_ok br_size l0 0 -> concat (map snd cs) = a_body a ->
+  trailer_fits br_size tfs ->
+  open_frames fr -> payload fr = a_body a -> concat parts = a_body a ->
+  exists r b d2 d3,
+    h1_exchange (bs "GET") m sizes
+      (render_head (a_code a) (a_reason a) (fs ++ [te_chunked]) ++ H1Render.render_chunks cs ++
+       l0 ++ H1Render.CRLF ++ render_wfields tfs ++ H1Render.CRLF ++ []) =
+      Some {| d_resp := r; d_body := b; d_api := expected_api a m sizes |} /\
+    h2_exchange false
+      [{| hh_status := code_text (a_code a); hh_fields := lower_fields (a_fields a); hh_end := false |}]
+      fr (Some (lower_fields (a_trailers a))) m sizes = Some d2 /\
+    h3_exchange false
+      [{| h3_status := code_text (a_code a); h3_flds := lower_fields (a_fields a) |}]
+      parts (Some (lower_fields (a_trailers a))) m sizes = Some d3 /\
+    r_code r = a_code a /\ m_code d2 = a_code a /\ m_code d3 = a_code a /\
+    r_header r = collect (a_fields a) /\ m_header d2 = collect (a_fields a) /\
+    m_header d3 = collect (a_fields a) /\
+    b_trailer b = collect (a_trailers a) /\ m_trailer d2 = collect (a_trailers a) /\
+    m_trailer d3 = collect (a_trailers a) /\
+    m_api d2 = expected_api a m sizes /\ m_api d3 = expected_api a m sizes.
+Proof. exact cross_protocol_response. Qed.
+Print Assumptions C02_cross_protocol_response.
+
+(* the linear-time copy of the reader that the correspondence check evaluates (Model/H1Fast.v)
+   IS the reader the theorems above are about, on every input *)
+Theorem C02_checked_reader_is_the_reader : forall meth m sizes s,
+  h1_exchange_f meth m sizes s = h1_exchange meth m sizes s.
+Proof. exact h1_exchange_f_eq. Qed.
+Print Assumptions C02_checked_reader_is_the_reader.
 
 (* ---------- read modes ---------- *)
 
